@@ -42,7 +42,7 @@ impl JmWriteGuard {
     pub fn maintenance(&mut self, Tracked(w): Tracked<&mut World>) -> (r: Result<(), Error>)
         ensures exists|k: int| 0 <= k <= old(w).sealed.len() && #[trigger] old(w).sealed.skip(k) == final(w).sealed
                     && final(w).removed == old(w).removed + Seq::new(k as nat, |i: int| old(w).sealed[i].path),
-                *final(w) == (World { sealed: final(w).sealed, removed: final(w).removed, ..*old(w) }),
+                *final(w) == (World { sealed: final(w).sealed, removed: final(w).removed, reclaim_due: false, ..*old(w) }),
     { unimplemented!() }
 }
 pub struct DbConfig { pub manual_journal_persist: bool }
